@@ -74,7 +74,18 @@ def reader (ch : Nat) (big : Bool) (data : List Byte) : Reader :=
 
 /-! caller types -/
 
+/-- `paf24_write_s/i/f/d`: the caller's value as the codec's 32-bit working sample (the 24-bit code in its top three bytes);
+    normalisation off: `1.0 * 0x100` (since the repair of KF-PAF24-NORMOFF-WRITE) -/
 def ofCaller (c : Conv) (ty : Ty) (v : Int) : Int :=
+  match ty with
+  | .s16 => v * 65536
+  | .s32 => v
+  | .f32 => lrintInt c.variant (mulNf f32 (if c.normF then f32.toDy (f32.ofInt 0x7FFFFFFF) else pow2 8) v.toNat)
+  | .f64 => lrintInt c.variant (mulNf f64 (if c.normD then Dy.ofInt 0x7FFFFFFF else pow2 8) v.toNat)
+
+/-- the rule before the repair of KF-PAF24-NORMOFF-WRITE: with normalisation off the writers DIVIDED by 0x100 (the readers'
+    factor), so the stored code was the caller's value / 65536 -/
+def ofCallerOld (c : Conv) (ty : Ty) (v : Int) : Int :=
   match ty with
   | .s16 => v * 65536
   | .s32 => v
